@@ -566,9 +566,15 @@ class ValueMon(Monitor):
             if self.costs:
                 w.facts.append('wo_cost_charged')
         from simprocesd.model.factory_floor import Asset
-        tot = sum(a.value for a in w.system._assets if isinstance(a, Asset))
+        # every non-transitory asset the MODEL has created (whatever the system remembers of it) plus those registered by hand
+        mine = {id(a): a for a in w.system._assets if isinstance(a, Asset)}
+        for o in w.dev.values():
+            if isinstance(o, Asset) and not getattr(o, '_is_transitory', False):
+                mine.setdefault(id(o), o)
+        tot = sum(a.value for a in mine.values())
         if w.system.get_net_value_of_assets() != tot:
-            raise Violation('net_value', f'{w.system.get_net_value_of_assets()} vs {tot}')
+            raise Violation('net_value', f'system says {w.system.get_net_value_of_assets()}, the assets created by the model '
+                                         f'are worth {tot}')
         # ... of THIS system, whichever system happens to be the active one
         from simprocesd.model import System as _Sys
         act = _Sys._instance
